@@ -3,9 +3,14 @@
    Vocabulary: RankSpec (key, rank_ltb, ranked, input_order, result_order), RankModel (points, result,
    compare_ranks, compare_ranks_x86, pack64, sort_results), MergerModel (new_merger, pass_merger, merger_get,
    probes, slice_chunks, scan, filter_output).  `view r` is the spec's reading of a model result: its item index
-   and the key [points[3]; points[2]; points[1]; points[0]].  `le ltb a b` means "b is not before a". *)
+   and the key [points[3]; points[2]; points[1]; points[0]].  `le ltb a b` means "b is not before a".
+   Configuration side: CriteriaSpec (tiebreak_criteria, scheme_criteria, configured: the documented reading of the
+   --scheme/--tiebreak/--sort/--no-sort/--tac/--no-tac options of a whole command line), CriteriaModel (parse_scheme,
+   parse_tiebreak, parse_options incl. step 4 of ParseOptions); `installs c st`: the option record st carries the
+   scheme name, the criteria constants, Sort > 0 and Tac of the configuration c. *)
 From Coq Require Import Permutation Sorted.
 From Fzf Require Import Prelude RankSpec RankModel MergerModel RankProofs KeyProofs MergerProofs.
+From Fzf Require Import CriteriaSpec CriteriaModel CriteriaProofs.
 Open Scope Z_scope.
 
 (* ---- the keys ---- *)
@@ -170,7 +175,47 @@ Theorem order_independent_of_partitions : forall (I : Type) (mk : I -> result) (
 Proof. exact order_independent_of_partitions_proof. Qed.
 Print Assumptions order_independent_of_partitions.
 
+(* ---- which criteria are "the configured --tiebreak criteria" ---- *)
+
+(* parseTiebreak accepts exactly the documented lists (each criterion once, index only at the end, at most three
+   besides index; any letter case) and returns score followed by the criteria in the given order. *)
+Theorem parse_tiebreak_is_documented : forall s,
+  parse_tiebreak s = match tiebreak_criteria s with
+                     | Some cs => Ok (map crit_code cs)
+                     | None => Err BadInput
+                     end.
+Proof. exact parse_tiebreak_spec. Qed.
+Print Assumptions parse_tiebreak_is_documented.
+
+(* For EVERY sequence of --scheme / --tiebreak / --sort / --no-sort / --tac / --no-tac options (values valid or not)
+   and both answers to "does fzf produce the input itself": ParseOptions rejects the command line exactly when the
+   documented reading does, and otherwise installs the documented scheme, criteria (the last --tiebreak or --scheme
+   wins; the default of the chosen scheme when none was given; --tiebreak=index alone is [score], NOT the default),
+   sort flag and tac flag. *)
+Theorem configured_criteria_correct : forall (walker : bool) (os : list copt),
+  match configured walker os with
+  | Some c => exists st, parse_options walker os = Ok st /\ installs c st
+  | None => exists e, parse_options walker os = Err e
+  end.
+Proof. exact configured_criteria_correct_proof. Qed.
+Print Assumptions configured_criteria_correct.
+
 (* ---- non-vacuity ---- *)
+
+(* --tiebreak=index alone keeps only the score key; after another list it replaces it; a later --scheme replaces
+   a --tiebreak; nothing given: the default scheme's length (the path scheme's pathname,length under the walker);
+   the variant "default [byScore], test len = 1" of the same pass loses --tiebreak=index. *)
+Example c04_configured_nonvacuous :
+  configured false [OTiebreak w_index] = Some (mkConfig SDefault [ByScore] true false) /\
+  configured false [OTiebreak w_length; OTac true; OTiebreak w_index; OSort false] = Some (mkConfig SDefault [ByScore] false true) /\
+  configured false [OTiebreak w_begin; OScheme w_path] = Some (mkConfig SPath [ByScore; ByPathname; ByLength] true false) /\
+  configured false [OScheme w_history; OTiebreak (w_end ++ 44 :: w_chunk)] = Some (mkConfig SHistory [ByScore; ByEnd; ByChunk] true false) /\
+  configured false [] = Some (mkConfig SDefault [ByScore; ByLength] true false) /\
+  configured true [OTac true] = Some (mkConfig SPath [ByScore; ByPathname; ByLength] true true) /\
+  configured false [OTiebreak (w_index ++ 44 :: w_length)] = None /\
+  (exists os c st, configured false os = Some c /\ parse_options_len1 false os = Ok st /\
+                   o_criteria st <> map crit_code (cf_criteria c)).
+Proof. repeat split; try (vm_compute; reflexivity). exact criteria_len1_refuted_proof. Qed.
 
 (* five items in chunks of 2 (first chunk partial, as after --tail), item 2 does not match; two partitions;
    items 1 and 3 tie on all keys: broken by index, the other way round under tac *)
